@@ -33,6 +33,9 @@ def run(ctx):
     # type per file: the verdict does not depend on which file is read first (and no order crashes)
     for fam in ("inherit", "alias", "contain"):
         ctx.tlc("MC_CyclesGen", "MC_CyclesGen_%s_files" % fam, replay="repro", coverage=False, label="MC_CyclesGen_%s_files" % fam)
+    # ill-formed programs with several errors on one element (lists of up to four attributes in front of an operation, C04's
+    # family): the same diagnostics, byte for byte, in every run
+    ctx.tlc("MC_Rules", "MC_Rules_attrlists_four", replay="repro", coverage=False, label="MC_Rules_attrlists(reruns)")
     # files that re-open one module, each with a doc link spelled alike that designates a member of its own container: what a
     # comment is bound to is part of the file's compiled content (the digests cover doc comments and their link targets)
     ctx.tlc("MC_LinkFiles", "MC_LinkFiles" if ctx.quick else "MC_LinkFiles_thorough", replay="repro", coverage=False)
